@@ -257,10 +257,12 @@ def props_of(conj, sig, group):
         ps.add('C20')
         if conj == 'nopanic':
             ps.add('C13')
-        if conj == 'lower':
+        if conj in ('lower', 'pure'):
             ps.add('C08')
         if conj == 'wellformed':
             ps.add('C03')
+        if conj == 'errpath':
+            ps.add('C12')
         return ps
     if kind == 'conc':
         ps.add(sig.get('prop', 'C16')[:3])
